@@ -3552,7 +3552,12 @@ class NameCheckVisitor(node_visitor.ReplacingNodeVisitor):
                 and isinstance(op, (ast.Gt, ast.GtE, ast.Lt, ast.LtE))
             ):
                 op_func, _, _ = COMPARATOR_TO_OPERATOR[type(op)]
-                definite_value = op_func(sys.version_info, rhs.val)
+                try:
+                    definite_value = op_func(sys.version_info, rhs.val)
+                except Exception:
+                    # e.g. sys.version_info < "3": not comparable, so nothing is
+                    # known statically; the ordinary comparison check below applies.
+                    definite_value = None
             lhs = lhs.value
         if isinstance(lhs_constraint, PredicateProvider) and isinstance(
             rhs, KnownValue
